@@ -26,58 +26,83 @@ class NotDecided(Exception):
     pass
 
 
-def _getter_formulas(prog, cls, name):
-    """{True: Poly, False: Poly} over symbols pos/ext for a getter of the form `v = A if flip else B`."""
-    g = cls.methods.get(name)
-    if g is None:
-        raise NotDecided("getter %s missing" % name)
-    env = {}
-    flipname = None
-    for st in g.node.body:
-        if isinstance(st, ast.Assign) and isinstance(st.targets[0], ast.Tuple) and isinstance(st.value, ast.Tuple):
-            for t, v in zip(st.targets[0].elts, st.value.elts):
-                a = dotted(v) or ""
-                f = a.split(".")[-1]
+def _preamble(fnode):
+    """(elem var, env of position/extent/new symbols, flip var, field names) from the `x, cx, flip[, new] = elm.x, elm.cx, elm.flip[,
+    int(value)]` preamble (tuple form or separate assignments; the function is given desugared)."""
+    env, fields, flipname, elem = {}, {}, None, None
+    for s in ast.walk(fnode):
+        if isinstance(s, ast.Assign) and len(s.targets) == 1 and isinstance(s.targets[0], ast.Name):
+            t, v = s.targets[0], s.value
+            if dotted(v) == "self._element":
+                elem = t.id
+                continue
+            a = dotted(v) or ""
+            f = a.split(".")[-1]
+            if elem and a.startswith(elem + ".") or a.startswith("self._element."):
                 if f in ("x", "y"):
                     env[t.id] = Poly.sym("pos")
-                elif f in ("cx", "cy"):
-                    env[t.id] = Poly.sym("ext")
-                elif f in ("flipH", "flipV"):
-                    flipname = t.id
-    for n in ast.walk(g.node):
-        if isinstance(n, ast.IfExp) and isinstance(n.test, ast.Name) and n.test.id == flipname:
-            return {True: of_expr(n.body, env), False: of_expr(n.orelse, env)}
-    raise NotDecided("getter %s is not `A if flip else B`" % name)
-
-
-def analyse_setter(prog, cls, name):
-    """Returns list of path results: dict(cond=str, moved=Poly, other=Poly, ext=Poly, facts=[Poly], flip0, flip1)."""
-    st_ = cls.setters.get(name)
-    if st_ is None:
-        raise NotDecided("setter %s missing" % name)
-    body = [s for s in st_.node.body if not (isinstance(s, ast.Expr) and isinstance(s.value, ast.Constant))]
-    env0 = {}
-    flipname = None
-    elem = None
-    fields = {}
-    for s in body:
-        if isinstance(s, ast.Assign) and isinstance(s.targets[0], ast.Name) and dotted(s.value) == "self._element":
-            elem = s.targets[0].id
-        if isinstance(s, ast.Assign) and isinstance(s.targets[0], ast.Tuple) and isinstance(s.value, ast.Tuple):
-            for t, v in zip(s.targets[0].elts, s.value.elts):
-                a = dotted(v) or ""
-                f = a.split(".")[-1]
-                if f in ("x", "y") and a.startswith((elem or "?") + "."):
-                    env0[t.id] = Poly.sym("pos")
                     fields["pos"] = f
                 elif f in ("cx", "cy"):
-                    env0[t.id] = Poly.sym("ext")
+                    env[t.id] = Poly.sym("ext")
                     fields["ext"] = f
                 elif f in ("flipH", "flipV"):
                     flipname = t.id
                     fields["flip"] = f
-                elif isinstance(v, ast.Call) and dotted(v.func) == "int":
-                    env0[t.id] = Poly.sym("new")
+            elif isinstance(v, ast.Call) and dotted(v.func) == "int" and len(v.args) == 1 and isinstance(v.args[0], ast.Name):
+                env[t.id] = Poly.sym("new")
+    return elem, env, flipname, fields
+
+
+def _flip_fact(fs, flipname, elem, fields):
+    for a in fs:
+        if a[0] == "truthy" and a[1] in (flipname, "%s.%s" % (elem, fields.get("flip")), "self._element.%s" % fields.get("flip")):
+            return a[2]
+    return None
+
+
+def _getter_formulas(prog, cls, name):
+    """{True: Poly, False: Poly} over symbols pos/ext: what the getter returns when the flip flag is set / clear."""
+    from sa import paths as P_
+    from sa.desugar import desugar
+
+    g = cls.methods.get(name)
+    if g is None:
+        raise NotDecided("getter %s missing" % name)
+    d = desugar(g.node)
+    elem, env0, flipname, fields = _preamble(d)
+    if flipname is None:
+        raise NotDecided("getter %s does not read the flip flag" % name)
+    out = {}
+    for pth in P_.enum_paths(d.body):
+        if pth.end != "return":
+            continue
+        env = dict(env0)
+        for ev in pth.events:
+            if ev[0] == "stmt" and isinstance(ev[1], ast.Assign) and isinstance(ev[1].targets[0], ast.Name) and ev[1].targets[0].id not in env0 \
+                    and ev[1].targets[0].id not in (elem, flipname):
+                try:
+                    env[ev[1].targets[0].id] = of_expr(ev[1].value, env, ("Emu", "int", "Length"))
+                except Exception:
+                    pass
+        fl = _flip_fact(P_.facts(pth), flipname, elem, fields)
+        if fl is None:
+            raise NotDecided("getter %s: a path does not decide the flip flag" % name)
+        out[fl] = of_expr(pth.end_node.value, env, ("Emu", "int", "Length"))
+    if set(out) != {True, False}:
+        raise NotDecided("getter %s is not a two-way decision on the flip flag" % name)
+    return out
+
+
+def analyse_setter(prog, cls, name):
+    """Path results: dict(cond=str, flip0, fin={pos, ext, flip}, facts=[Poly])."""
+    from sa import paths as P_
+    from sa.desugar import desugar
+
+    st_ = cls.setters.get(name)
+    if st_ is None:
+        raise NotDecided("setter %s missing" % name)
+    d = desugar(st_.node)
+    elem, env0, flipname, fields = _preamble(d)
     if not (elem and flipname and set(fields) == {"pos", "ext", "flip"} and any(p == Poly.sym("new") for p in env0.values())):
         raise NotDecided("setter %s: preamble `x, cx, flip, new = elm.x, elm.cx, elm.flip, int(value)` not recognised" % name)
     results = []
@@ -99,36 +124,63 @@ def analyse_setter(prog, cls, name):
             return Poly.const(e.value)
         if isinstance(e, ast.UnaryOp) and isinstance(e.op, ast.USub):
             return -ev(e.operand, env, absmap)
+        if isinstance(e, ast.Call) and dotted(e.func) in ("int", "Emu") and len(e.args) == 1:
+            return ev(e.args[0], env, absmap)
         raise NotDecided("expression `%s` outside the affine fragment" % ast.unparse(e))
 
     def resolve(p, facts, absmap):
-        """substitute |q| symbols whose sign is stated by a fact"""
         changed = True
         while changed:
             changed = False
             for s in list(p.symbols()):
                 if s in absmap:
                     q = resolve(absmap[s], facts, absmap)
-                    fs = [resolve(f, [], absmap) if False else f for f in facts]
-                    if any(f == q for f in fs) or q.is_const() and (q.const_value() or 0) >= 0:
+                    if any(f == q for f in facts) or (q.is_const() and (q.const_value() or 0) >= 0):
                         p = p.subst(s, q)
                         changed = True
-                    elif any(f == -q for f in fs):
+                    elif any(f == -q for f in facts):
                         p = p.subst(s, -q)
                         changed = True
         return p
 
-    def walk(stmts, env, state, facts, absmap, flip, conds):
-        for i, s in enumerate(stmts):
+    for pth in P_.enum_paths(d.body):
+        if pth.end == "raise":
+            continue
+        env = dict(env0)
+        state = {"pos": Poly.sym("pos"), "ext": Poly.sym("ext"), "flip": None}
+        facts, absmap, conds = [], {}, []
+        flip0 = None
+        for evn in pth.events:
+            if evn[0] == "cond":
+                t, outcome = evn[1], evn[2]
+                conds.append(("" if outcome else "not ") + ast.unparse(t))
+                core, pol = t, outcome
+                while isinstance(core, ast.UnaryOp) and isinstance(core.op, ast.Not):
+                    core, pol = core.operand, not pol
+                if dotted(core) in (flipname, "%s.%s" % (elem, fields["flip"])):
+                    if flip0 is None and state["flip"] is None:
+                        flip0 = pol
+                        state["flip"] = pol
+                    elif state["flip"] is not None and state["flip"] != pol:
+                        break  # infeasible: contradicts the flag value already decided / written
+                    continue
+                if isinstance(core, ast.Compare) and len(core.ops) == 1 and isinstance(core.ops[0], (ast.GtE, ast.LtE, ast.Gt, ast.Lt)):
+                    a, b = ev(core.left, env, absmap), ev(core.comparators[0], env, absmap)
+                    op = core.ops[0]
+                    tf, ff = (a - b, b - a) if isinstance(op, (ast.GtE, ast.Gt)) else (b - a, a - b)
+                    facts.append(tf if pol else ff)
+                    continue
+                raise NotDecided("condition `%s`" % ast.unparse(t))
+            if evn[0] != "stmt":
+                raise NotDecided("statement kind %s" % evn[0])
+            s = evn[1]
             if isinstance(s, ast.Assign) and len(s.targets) == 1:
                 t = s.targets[0]
                 if isinstance(t, ast.Name):
-                    if dotted(s.value) == "self._element" or isinstance(s.value, ast.Tuple):
+                    if t.id in (elem, flipname) or t.id in env0:
                         continue
-                    env = dict(env)
                     env[t.id] = ev(s.value, env, absmap)
-                elif isinstance(t, ast.Attribute) and dotted(t.value) == elem:
-                    state = dict(state)
+                elif isinstance(t, ast.Attribute) and dotted(t.value) in (elem, "self._element"):
                     if t.attr == fields["flip"]:
                         v = s.value.value if isinstance(s.value, ast.Constant) else None
                         if not isinstance(v, bool):
@@ -140,48 +192,23 @@ def analyse_setter(prog, cls, name):
                         state["ext"] = ev(s.value, env, absmap)
                     else:
                         raise NotDecided("write to %s" % t.attr)
-                elif isinstance(t, ast.Tuple):
-                    continue
                 else:
                     raise NotDecided("assignment target `%s`" % ast.unparse(t))
-            elif isinstance(s, ast.If):
-                t = s.test
-                rest = stmts[i + 1:]
-                if isinstance(t, ast.Name) and t.id == flipname:
-                    for pol, blk in ((True, s.body), (False, s.orelse)):
-                        if flip is not None and flip != pol:
-                            continue
-                        st2 = dict(state)
-                        if flip is None:
-                            st2["flip"] = pol
-                        walk(list(blk) + rest, env, st2, facts, absmap, pol, conds + ["%s=%s" % (flipname, pol)])
-                    return
-                if isinstance(t, ast.Compare) and len(t.ops) == 1 and isinstance(t.ops[0], (ast.GtE, ast.LtE, ast.Gt, ast.Lt)):
-                    a, b = ev(t.left, env, absmap), ev(t.comparators[0], env, absmap)
-                    op = t.ops[0]
-                    if isinstance(op, (ast.GtE, ast.Gt)):
-                        tf, ff = a - b, b - a
-                    else:
-                        tf, ff = b - a, a - b
-                    walk(list(s.body) + rest, env, state, facts + [tf], absmap, flip, conds + [ast.unparse(t)])
-                    walk(list(s.orelse) + rest, env, state, facts + [ff], absmap, flip, conds + ["not " + ast.unparse(t)])
-                    return
-                raise NotDecided("condition `%s`" % ast.unparse(t))
             elif isinstance(s, (ast.Expr, ast.Pass)):
                 continue
             else:
                 raise NotDecided("statement `%s`" % ast.unparse(s)[:40])
-        # end of path: resolve abs symbols in facts first (facts may mention |q|)
-        rfacts = list(facts)
-        for _ in range(3):
-            rfacts = [resolve(f, rfacts, absmap) for f in rfacts]
-        fin = {k: (resolve(v, rfacts, absmap) if isinstance(v, Poly) else v) for k, v in state.items()}
-        left = [s for k in ("pos", "ext") for s in fin[k].symbols() if s in absmap]
-        if left:
-            raise NotDecided("path [%s]: the sign of %s is not stated by the path conditions" % (", ".join(conds), left[0]))
-        results.append({"cond": ", ".join(conds), "flip0": flip, "fin": fin, "facts": rfacts})
-
-    walk(body, env0, {"pos": Poly.sym("pos"), "ext": Poly.sym("ext"), "flip": None}, [], {}, None, [])
+        else:
+            if flip0 is None:
+                raise NotDecided("a path through %s does not decide the flip flag" % name)
+            rfacts = list(facts)
+            for _ in range(3):
+                rfacts = [resolve(f, rfacts, absmap) for f in rfacts]
+            fin = {k: (resolve(v, rfacts, absmap) if isinstance(v, Poly) else v) for k, v in state.items()}
+            left = [s for k in ("pos", "ext") for s in fin[k].symbols() if s in absmap]
+            if left:
+                raise NotDecided("path [%s]: the sign of %s is not stated by the path conditions" % (", ".join(conds), left[0]))
+            results.append({"cond": ", ".join(conds), "flip0": flip0, "fin": fin, "facts": rfacts})
     return st_, results
 
 
